@@ -19,6 +19,7 @@ INVARIANT ExactlyOnceAtEnd
 INVARIANT CompleteOnce
 INVARIANT CompletedByNamed
 INVARIANT CompletedByEnds
+INVARIANT NoSpuriousFailure
 INVARIANT NoCrossElementCut
 INVARIANT NoStall
 INVARIANT SampleConservation
